@@ -375,6 +375,16 @@ def step (st : State) (w : List String) : State × String :=
       let v : ReqView := { cd := cd, optEcs := optEcs, markEcs := mark, treeBypass := byp, scopeValid := false }
       (st, s!"hit={boolStr (storeGetConsults v && st.cuts.contains k)}")
     | _, _, _, _, _ => (st, "bad-op")
+  | ["pipe", "reject", c, proto, wher, copts] =>
+    -- an rcode rejection (`Chain.CancelWithRcode`) by a handler ahead of / behind edns
+    match clientOpts proto copts, parseClient c true with
+    | some none, _ => (st, "formerr")
+    | some (some copts?), some client =>
+      if wher == "ahead" then (st, s!"rcode=5 ropt={showOptSet (rejectReplyAhead copts?)}") else
+      let f := front st client false copts?
+      let ka := (proto == "tcp" || proto == "wtcp" || proto == "rtcp") && f.copts.any (fun o => o.code == 11)
+      (st, s!"rcode=5 ropt={showOptSet (rejectReplyBehind f.noedns f.fwd (serverOpts f.copts) ka)}")
+    | _, _ => (st, "bad-op")
   | ["pipe", "badvers", c, _proto, _ver, copts] =>
     match parseClient c true, parseOpts copts with
     | some client, some (some l) =>
